@@ -72,7 +72,12 @@ func literal(n int) []byte {
 // ---- model
 
 type mroot struct {
-	data []byte
+	// exact (byte-slice implementation only): data is the whole backing array, its length the known capacity; handles are
+	// [start,end) windows into it, exactly like Go slices (a Truncate re-slices, a Grow within the capacity writes zeros
+	// into the array - also where other windows show it - and a Grow beyond it moves the handle to a new array of
+	// unknown capacity, leaving the old one untouched)
+	exact bool
+	data  []byte
 	// kin: arrays that this one may or may not still share memory with (a blob that was resized may have moved to a new
 	// array, or not). Nothing is known about how a LATER write shows through to them; until such a write, their
 	// handles keep exactly what they had - in particular their own lengths.
@@ -105,7 +110,7 @@ type Options struct {
 
 // Stats counts what the monitor observed.
 type Stats struct {
-	Calls, InRange, BadArgs, AliasChecks, SelfSets, ContentChecks int
+	Calls, InRange, BadArgs, AliasChecks, SelfSets, ContentChecks, ExactResizes int
 }
 
 func argClass(c Call, l int) string {
@@ -201,7 +206,8 @@ func Exec(p Program, opt Options, st *Stats) []Issue {
 		}
 		issues = append(issues, Issue{Sig: sig, Detail: detail + " in program " + p.String()})
 	}
-	root := &mroot{data: initial(p.Len)}
+	exactMode := opt.Impl == "bytes" && !opt.NoAlias
+	root := &mroot{data: initial(p.Len), exact: exactMode}
 	model := []*mhandle{{root: root, start: 0, end: p.Len}}
 	subj := []blob.Blob{opt.New(initial(p.Len))}
 
@@ -281,7 +287,7 @@ func Exec(p Program, opt Options, st *Stats) []Issue {
 					nh = &mhandle{root: h.root, start: h.start + int(c.A), end: h.start + int(c.B)}
 				default:
 					cp := append([]byte(nil), h.content()[c.A:c.B]...)
-					nh = &mhandle{root: &mroot{data: cp}, start: 0, end: len(cp)}
+					nh = &mhandle{root: &mroot{data: cp, exact: exactMode}, start: 0, end: len(cp)} // (a copy is allocated at exactly its length)
 				}
 			default:
 				if st != nil {
@@ -416,6 +422,26 @@ func Exec(p Program, opt Options, st *Stats) []Issue {
 					break
 				}
 				changes := !(c.Op == "Grow" && c.A == 0) && !(c.Op == "Truncate" && c.A == int64(l))
+				if changes && h.root.exact && !h.detached {
+					// Go slice semantics, followed exactly while the capacity is known
+					switch {
+					case c.Op == "Truncate":
+						h.end = h.start + int(c.A)
+					case h.end+int(c.A) <= len(h.root.data):
+						for i := h.end; i < h.end+int(c.A); i++ {
+							h.root.data[i] = 0
+						}
+						h.end += int(c.A)
+					default:
+						nd := append(append([]byte(nil), h.content()...), make([]byte, c.A)...)
+						h.root = &mroot{data: nd} // capacity after a re-allocation is the runtime's business: not exact any more
+						h.start, h.end = 0, len(nd)
+					}
+					changes = false
+					if st != nil {
+						st.ExactResizes++
+					}
+				}
 				if changes {
 					var nd []byte
 					if c.Op == "Grow" {
